@@ -26,6 +26,8 @@ struct tres {
   long tls_wrong;
   long trylock_fail;
   int published[64];
+  var root_result;        /* a root object the worker built as its result and hands to the joiner */
+  int64_t root_id;
 };
 
 static struct tres RES[MAXT], SOLO[MAXT];
@@ -201,6 +203,10 @@ static var thread_main(var args) {
     vh_rng r; vh_rng_seed(&r, SEEDS[idx]);
     usleep((useconds_t)vh_below(&r, 2000));
     for (int i = 0; i < 64; i++) { out->published[i] = idx * 1000 + i; }
+    /* a result built as a root object: it is the worker's until somebody deletes it, the end of the thread does not */
+    out->root_id = next_probe_id();
+    out->root_result = new_root(PNode, $I(out->root_id));
+    for (int i = 0; i < 300; i++) { var g = new(PNode, $I(next_probe_id())); g = NULL; }
   }
   __atomic_store_n(&run_done[idx], 1, __ATOMIC_RELEASE);
   return NULL;
@@ -221,6 +227,19 @@ static void run_threads(int n, int ph) {
       for (int k = 0; k < 64; k++) {
         if (RES[i].published[k] != i * 1000 + k) { vh_violation("C13:join:effects-of-the-thread-not-visible-after-join", "thread %d slot %d reads %d right after join", i, k, RES[i].published[k]); break; }
       }
+      /* the root object the worker built is alive and intact for the joiner, who releases it */
+      vh_evals(2);
+      int64_t rid = RES[i].root_id; var rp = RES[i].root_result;
+      if (rp == NULL || rid <= 0 || rid >= MO_MAX) { vh_violation("C13:join:effects-of-the-thread-not-visible-after-join", "thread %d: no root result after join", i); }
+      else if (mo_state[rid] != MO_CONSTRUCTED) { vh_violation("C13:join:root-object-of-the-thread-finalised-when-it-ended", "the root object thread %d built as its result is in ledger state %d right after join (2 = alive)", i, mo_state[rid]); }
+      else {
+        if (((struct PNode*)rp)->id != rid) { vh_violation("C13:join:root-object-of-the-thread-finalised-when-it-ended", "the root object thread %d built reads id %" PRId64 " instead of %" PRId64, i, ((struct PNode*)rp)->id, rid); }
+        int me_idx = mo_thread_index; mo_thread_index = i + 1;      /* an explicit deletion on the worker's behalf, not a collection */
+        del_root(rp);
+        mo_thread_index = me_idx;
+        if (mo_state[rid] != MO_DESTRUCTED) { vh_violation("C13:join:root-object-of-the-thread-finalised-when-it-ended", "del_root of the root result of thread %d left it in ledger state %d", i, mo_state[rid]); }
+      }
+      vh_count("root_results_received_after_join");
     }
   } else {
     for (int i = 0; i < n; i++) { join_checked(i); }
